@@ -46,6 +46,16 @@ def run(tier, seed):
     # ---- conformance: interrupt the real session at every tick
     nprog, size, cap = (14, 3, 120) if tier == "quick" else (40, 4, 200)
     progs, srcs = refrun.gen_programs(seed, nprog, size, err_rate=0.15, features={"session_safe": True, "tracer": 0.3, "ext": True})
+    # every second program ends in an expression whose value is the request's answer: an interrupt at the very
+    # last tick must not lose it
+    import gen_prog
+    for p in progs:
+        if p["id"] % 2 == 0:
+            g = gen_prog.Gen(0)
+            g.nid = 800000
+            last = g.node("paren", e=g.node("bin", op="+", l=g.node("int", v=40), r=g.node("int", v=2))) if p["id"] % 4 == 0 else g.node("int", v=42)
+            p["main"].append(last)
+            srcs[p["id"]] = gen_prog.render(p)
     tres, exp = refrun.ref_expect(progs)
     ck.add_tlc(tres)
     base = batch("run", [{"id": p["id"], "src": srcs[p["id"]]} for p in progs])
